@@ -265,6 +265,36 @@ func genPedersen(g *gen, cn string, c c17Curve) {
 			}
 		}
 	}
+	// PARTIAL VANISHING, every curve: one operand of e(C, [−σg]G₂)·e(pok, [g]G₂) is the identity while the relation is false
+	// (C = O / pok = O with the partner kept; vk.G = O / vk.GSigmaNeg = O / σ = 0 with a non-trivial partner), and the contrast
+	// cases where the vanishing operand's partner vanishes as well (accepted)
+	for rep := 0; rep < g.budget(1, 3); rep++ {
+		n := 1 + g.rng.intn(4)
+		gg, s := g.nzScalar(r), g.nzScalar(r)
+		b, v, v2 := g.scalars(r, n), g.scalars(r, n), g.scalars(r, n)
+		line := func(gg, s *big.Int, v []*big.Int, mut string, m *big.Int) {
+			g.emit("C17 pedersen %s single g=%s s=%s b=%s v=%s v2=%s mut=%s m=%s", cn, hexBig(gg), hexBig(s), showL(b), showL(v), showL(v2), mut, hexBig(m))
+		}
+		zero := big.NewInt(0)
+		zeros := make([]*big.Int, n)
+		for i := range zeros {
+			zeros[i] = zero
+		}
+		line(gg, s, v, "Czero", zero)             // C = O, pok ≠ O
+		line(gg, s, v, "Pzero", zero)             // pok = O, C ≠ O
+		line(gg, s, v, "vkG", zero)               // [g]G₂ = O, C ≠ O
+		line(gg, s, v, "vkS", zero)               // [−σg]G₂ = O, pok ≠ O
+		line(gg, zero, v, "Pset", g.nzScalar(r))  // σ = 0: GSigmaNeg = O, pok ≠ O
+		line(gg, zero, v, "Cset", g.nzScalar(r))  // σ = 0: GSigmaNeg = O, honest pok = O: any C is accepted
+		line(zero, s, v, "Pset", g.nzScalar(r))   // g = 0: both G2 operands O: accepted
+		line(gg, s, zeros, "none", zero)          // C = pok = O: accepted
+		line(gg, s, zeros, "Pset", g.nzScalar(r)) // C = O, pok ≠ O
+		line(gg, s, zeros, "Cset", g.nzScalar(r)) // pok = O, C ≠ O
+		if c.hasNoSubG1() { // subgroup membership of each G1 argument: honest element + a point of cofactor order
+			line(gg, s, v, "Ctor", g.nzScalar(r))
+			line(gg, s, v, "Ptor", g.nzScalar(r))
+		}
+	}
 	// value-length mismatch
 	g.emit("C17 pedersen %s single g=1 s=2 b=3,4 v=5 v2=- mut=none m=0", cn)
 	// degenerate keys σ=0 / g=0 (not produced by Setup; the exponent relation still decides)
@@ -315,6 +345,25 @@ func genPedersen(g *gen, cn string, c c17Curve) {
 					}
 					g.emit("C17 pedersen %s batch g=%s s=%s b=%s v=%s r=%s mode=%s mut=%s i=%x m=%s", cn, hexBig(gg), showL(ss), showLL(bs), showLL(vs),
 						hexBig(g.latticeScalar(r)), mode, mut, i, hexBig(g.nzScalar(r)))
+				}
+			}
+			if k == 0 {
+				continue
+			}
+			// every curve: all G1 operands of the σ-pairs / of the G-pair the identity (partial vanishing), and subgroup
+			// membership of EVERY commitment and EVERY proof of knowledge (honest element + a point of cofactor order)
+			batchLine := func(mut string, i int) {
+				g.emit("C17 pedersen %s batch g=%s s=%s b=%s v=%s r=%s mode=%s mut=%s i=%x m=%s", cn, hexBig(gg), showL(ss), showLL(bs), showLL(vs),
+					hexBig(g.nzScalar(r)), mode, mut, i, hexBig(g.nzScalar(r)))
+			}
+			batchLine("CzeroAll", 0)
+			batchLine("PzeroAll", 0)
+			if c.hasNoSubG1() {
+				for i := 0; i < k; i++ {
+					batchLine("Ctor", i)
+					if mode == "multi" || i == 0 {
+						batchLine("Ptor", i)
+					}
 				}
 			}
 		}
@@ -406,6 +455,11 @@ func genShplonk(g *gen, cn string, c c17Curve) {
 			i := g.rng.intn(len(polys))
 			j := g.rng.intn(len(pts[i]))
 			emit(polys, polys2, pts, n, mut, i, j, g.nzScalar(r))
+		}
+		// partial vanishing (every curve, every repetition): W' := −F/z makes the first pairing operand the identity
+		for q := 0; q < g.budget(2, 4); q++ {
+			i := g.rng.intn(len(polys))
+			emit(polys, polys2, pts, n, "vanish", i, g.rng.intn(len(pts[i])), g.nzScalar(r))
 		}
 		// malformed proof objects: wrong number of components
 		if rep == 0 {
@@ -504,6 +558,11 @@ func genFflonk(g *gen, cn string, c c17Curve) {
 				j = k
 			}
 			emit(packs, packs2, pts, srs, mut, i, j, k, g.nzScalar(r))
+		}
+		// partial vanishing through the inner SHPLONK proof (every curve): outer and inner values move together, W' := −F/z
+		for q := 0; q < g.budget(2, 4); q++ {
+			i := g.rng.intn(len(packs))
+			emit(packs, packs2, pts, srs, "vanish", i, g.rng.intn(len(packs[i])), g.rng.intn(len(pts[i])), g.nzScalar(r))
 		}
 		emit(packs, packs2, pts, srs, "ocvAdd", 0, 0, 0, big.NewInt(0))
 	}
@@ -695,6 +754,55 @@ func genMpcsetup(g *gen, cn string, c c17Curve) {
 					g.emit("C17 mpcsetup %s kind=step n=%x t0=%s x=%s mut=%s i=%x m=%s", cn, n, hexBig(t0), hexBig(g.nzScalar(r)), mut, i, hexBig(g.nzScalar(r)))
 				}
 			}
+		}
+	}
+	// SUBGROUP MEMBERSHIP of EVERY element of a contribution, every curve: exactly one element (each power [x^i]₁, i = 1..n−1,
+	// first and last included; [x]₂; the update proof's commitment and proof of knowledge) carries a component of cofactor
+	// order, built in memory; then two elements at once; then none (the in-memory honest contribution: accepted).
+	// G1 positions only on curves whose G1 has a cofactor (bn254: G2 positions only).
+	{
+		sizes := []int{2, 3, g.budget(6, 9), g.budget(19, 40)} // 19 / 40 powers: several powers per worker chunk of Verify
+		hasG1 := c.hasNoSubG1()
+		for _, n := range sizes {
+			t0 := g.nzScalar(r)
+			if n == 3 {
+				t0 = big.NewInt(1) // the initial setup
+			}
+			line := func(bad map[int]bool) {
+				sub1 := make([]*big.Int, n-1)
+				for k := range sub1 {
+					sub1[k] = big.NewInt(1)
+					if bad[k] {
+						sub1[k] = big.NewInt(0)
+					}
+				}
+				g.emit("C17 mpcsetup %s kind=step n=%x t0=%s x=%s mut=nosub sub1=%s sub2=%s subc=%s subp=%s m=%s", cn, n, hexBig(t0), hexBig(g.nzScalar(r)),
+					showL(sub1), c17bs(!bad[n-1]), c17bs(!bad[n]), c17bs(!bad[n+1]), hexBig(g.nzScalar(r)))
+			}
+			isG1 := func(p int) bool { return p < n-1 || p == n }
+			line(map[int]bool{})
+			for p := 0; p < n+2; p++ {
+				if isG1(p) && !hasG1 {
+					continue
+				}
+				line(map[int]bool{p: true})
+			}
+			for q := 0; q < 2; q++ {
+				a, b := g.rng.intn(n+2), g.rng.intn(n+2)
+				if !hasG1 && (isG1(a) || isG1(b)) {
+					a, b = n-1, n+1
+				}
+				line(map[int]bool{a: true, b: true})
+			}
+		}
+		// UpdateProof.Verify on explicit representations: the proof's own two elements
+		as, bs := g.scalars(r, 2), g.scalars(r, 1)
+		for _, f := range [][2]bool{{true, true}, {false, true}, {true, false}, {false, false}} {
+			if !f[0] && !hasG1 {
+				continue
+			}
+			g.emit("C17 mpcsetup %s kind=update a=%s b=%s c=%x x=%s mut=nosub i=0 subc=%s subp=%s m=%s", cn, showL(as), showL(bs), g.rng.intn(1000), hexBig(g.nzScalar(r)),
+				c17bs(f[0]), c17bs(f[1]), hexBig(g.nzScalar(r)))
 		}
 	}
 	updMuts := []string{"none", "n1Set", "n1Scale", "n2Set", "n2Scale", "allScale", "n1Swap", "chal", "dst", "proofOther"}
